@@ -20,7 +20,7 @@ S_Privs == {"q", "a", "o", "h", "v"}
 S_PrivSets == {{}, {"o"}, {"v"}, {"o", "v"}, {"q"}, {"q", "o"}, {"a", "v"}, {"h"}, {"h", "v"}}
 StateRec == [phase |-> phase, tried |-> tried, snick |-> snick, nick |-> nick, mem |-> mem, kn |-> kn, uh |-> uh, jn |-> jn,
              topic |-> topic, ktopic |-> ktopic, key |-> key, kkey |-> kkey, lim |-> lim, klim |-> klim, flags |-> flags, kflags |-> kflags, pendMode |-> pendMode, pendWho |-> pendWho,
-             pendNick |-> pendNick, trk |-> trk, steps |-> steps]
+             pendNick |-> pendNick, trk |-> trk, cloak |-> cloak, steps |-> steps]
 Emit == PrintT("EDGE " \o ToJson([f |-> StateRec, o |-> lastOp', t |-> StateRec', view |-> View']))
 MCView == state
 =============================================================================
